@@ -121,6 +121,7 @@ def run_shard(spec, tier, seed):
     if spec.get("operators"):
         return run_operators(tier, seed)
     res = Result()
+    nsig = [0]
     npoints = 3 if tier == "quick" else 8
     for opname, dim in spec["items"]:
         op = C.OPS[opname]
@@ -253,6 +254,70 @@ def run_shard(spec, tier, seed):
                             except Exception:
                                 pass
                             compared += 1
+                        # ---- the same call on symbolic vectors whose coordinates are exact *numbers* (sympy Integer /
+                        # Rational), alone or mixed with symbols: substituting before the call or after it is the same
+                        nsig[0] += 1
+                        if compared and (tier == "thorough" or nsig[0] % 2 == 0):
+                            self_l, args = cases[0]
+                            try:
+                                WITNESS.reset()
+                                num = E.eval_mp(op, self_l, args)
+                                regular = not (WITNESS.events.keys() & IRREGULAR)
+                            except Exception:
+                                regular = False
+                            if regular:
+                                import vector
+                                ncls = getattr(vector, ("MomentumSympy" if mom else "VectorSympy") + f"{dim}D")
+                                svn = ncls(**dict(zip(R.field_names(s_self), [to_rational(c) for c in self_l.exact_coords()])))
+                                sargs_n, subs_n = [], {}
+                                for a, sa in zip(args, sargs):
+                                    if isinstance(a, LVec):
+                                        if nsig[0] % 4 == 0:   # numeric self with a symbolic second operand
+                                            sargs_n.append(sa)
+                                            subs_n.update(zip(osyms, [to_rational(c) for c in a.exact_coords()]))
+                                        else:
+                                            ocls = getattr(vector, ("MomentumSympy" if a.momentum else "VectorSympy") + f"{len(a.system) + 1}D")
+                                            sargs_n.append(ocls(**dict(zip(R.field_names(a.system), [to_rational(c) for c in a.exact_coords()]))))
+                                    else:
+                                        sargs_n.append(sa)
+                                res.evaluations += 1
+                                try:
+                                    sym = sym_result(op, op.call(svn, *sargs_n), subs_n)
+                                except Exception as e:
+                                    res.violation(f"C08/numeric-coordinates-call-raises-or-does-not-evaluate op={op.name}",
+                                                  {"cell": cell, "exc": f"{type(e).__name__}: {e}"[:300], "self": self_l.describe()})
+                                    sym = None
+                                if sym is not None:
+                                    unit = E.unit_scale(self_l, args)
+                                    gain = E.arg_gain(op, args)
+                                    ok, why = True, ""
+                                    if op.result == "bool":
+                                        margin_ok = True
+                                        if op.predicate_margin is not None:
+                                            try:
+                                                margin_ok = op.predicate_margin(self_l.rv, *[E.ref_arg(a) for a in args]) >= mpf(10) ** -9
+                                            except R.Undefined:
+                                                margin_ok = False
+                                        if margin_ok:
+                                            ok, why = (bool(sym) == bool(num)), f"symbolic {sym} numeric {num}"
+                                    elif op.result == "vec":
+                                        ssys, stored, smom, sdim = sym
+                                        if ssys != num.system or smom != num.momentum or sdim != num.dim:
+                                            ok, why = False, "result system/flavor/dimension differs"
+                                        else:
+                                            try:
+                                                err = E.rel_error(op, R.from_coords(ssys, stored), num.rv, unit, gain)
+                                                ok, why = err <= TOL, f"rel_error {mpmath.nstr(err, 5)}"
+                                            except R.NotRepresentable:
+                                                pass
+                                    else:
+                                        err = R.angdiff(sym, num) if op.result == "angle" else E.rel_error(op, sym, num, unit, gain)
+                                        ok, why = err <= TOL, f"rel_error {mpmath.nstr(err, 5)} symbolic {mpmath.nstr(sym, 20)} numeric {mpmath.nstr(num, 20)}"
+                                    if not ok:
+                                        res.violation(f"C08/numeric-coordinates-expression-disagrees-with-numeric-backend op={op.name}",
+                                                      {"cell": cell, "why": why, "self": self_l.describe(), "args": [E.describe_arg(a) for a in args],
+                                                       "second_operand": "symbolic" if nsig[0] % 4 == 0 else "numeric"})
+                                    res.cell("numeric-coordinates", cell)
                         if compared:
                             res.cell(cell)
                         else:
